@@ -10,8 +10,8 @@ CONSTANTS
   FixMerged = TRUE
   Scheds = {0}
   FreePolls = TRUE
-  PartialRecv = TRUE
-  EacTimer = TRUE
+  PartialRecv = FALSE
+  EacTimer = FALSE
   FixWithdraw = FALSE
 VIEW RView
 INVARIANTS NoMissingNoStale ExtraOnlyRemoved FileInfoOk EacOk CountsOk TableMirror
